@@ -294,6 +294,19 @@ Proof.
       destruct (C p we sc sg Es) as [C1 _]. split; [exact C1|exact Hc].
   - (* LsBumpFail *)
     destruct (pc data s); try discriminate. inversion E; subst. apply Same. reflexivity.
+  - (* LsPostSync *)
+    destruct (pc data s); try discriminate.
+    destruct (needs_post postcopy m rb); [|discriminate].
+    destruct (do_sync data lock freshrule reachrule (strict_ss data s) k) eqn:Ed; [|discriminate].
+    inversion E; subst.
+    eapply sinv_score; [|eapply sinv_do_sync; [| |exact Ed]].
+    + reflexivity.
+    + unfold strict_ss. apply inv_set_ss. exact H.
+    + eapply sinv_score; [|exact Hn]. reflexivity.
+  - (* LsFail *)
+    destruct (in_call (pc data s) && opened data s); [|discriminate]. inversion E; subst.
+    apply Same. unfold fail_st.
+    destruct (ls_mark data s); destruct (clear && fail_clears (pc data s)); reflexivity.
 Qed.
 
 Lemma init_sinv s : init_ok data zero lock s -> sinv s.
